@@ -69,11 +69,33 @@ func (g *gen) someAlters(from []string, max int) []string {
 	out := []string{}
 	for i := 0; i < n; i++ {
 		a := from[g.r.Intn(len(from))]
-		if !has(out, a) {
+		if !has(out, a) && !conflicts(out, a) {
 			out = append(out, a)
 		}
 	}
 	return out
+}
+
+// conflicts: alterations that cancel each other (the message would be the unaltered one again)
+func conflicts(chosen []string, a string) bool {
+	group := func(x string) int {
+		switch x {
+		case "seq+1", "seq-1":
+			return 1
+		case "height+1", "height-1", "height_old":
+			return 2
+		}
+		return 0
+	}
+	if group(a) == 0 {
+		return false
+	}
+	for _, c := range chosen {
+		if group(c) == group(a) {
+			return true
+		}
+	}
+	return false
 }
 
 func (g *gen) add(op Op) { g.ops = append(g.ops, op) }
@@ -194,7 +216,12 @@ func (g *gen) genRecv() {
 		if g.focus == "c02" {
 			max = 3
 		}
-		op.Alter = g.someAlters(recvAlters, max)
+		from := recvAlters
+		if dup && g.focus == "c01" {
+			// duplicates: altered payload / proof / height (the relayer varies independently)
+			from = []string{"payload", "proof_other", "proof_flip", "proof_empty", "height-1", "height+1", "height_old", "feeopt"}
+		}
+		op.Alter = g.someAlters(from, max)
 	}
 	encP := 20
 	if dup {
